@@ -217,6 +217,8 @@ class mm_reader {
                 }
             }
 
+            check_no_trailing_data();
+
             std::partial_sum(ptr.begin(), ptr.end(), ptr.begin());
 
             col.resize(ptr.back());
@@ -293,6 +295,8 @@ class mm_reader {
                 }
             }
 
+            check_no_trailing_data();
+
             return std::make_tuple(row_end - row_beg, m);
         }
     private:
@@ -311,6 +315,16 @@ class mm_reader {
             if (!msg.empty())
                 err_string += " (" + msg + ")";
             return err_string;
+        }
+
+        // The file announces its number of entries; anything but blank lines
+        // after them means the sizes in the header are inconsistent.
+        void check_no_trailing_data() {
+            while (std::getline(f, line)) {
+                precondition(
+                        line.find_first_not_of(" \t\r\v\f") == std::string::npos,
+                        format_error("unexpected data after the last entry"));
+            }
         }
 
         template <typename T>
